@@ -37,6 +37,26 @@ CHECKS.append({
     "design_ref": "DESIGN.md section 7, C12",
 })
 
+CHECKS.append({
+    "property_id": "C04",
+    "text": ("Theorem C04_holds (coq/Props/C04.v) over the planner model coq/Model/LogixPlan.v (MULTISERVICE_READ_OVERHEAD regenerated from "
+             "const.py), all sizes symbolic, every request list and every connection size: (1) every multi-service read packet has planner "
+             "overhead + estimates <= connection size, and the estimate dominates the bytes really sent and really solicited (request item and "
+             "reply item both <= connection size); (2) every multi-service write packet's connected item <= connection size; (3) a single read "
+             "that is not fragmented solicits a reply that fits; (4) the packets of a read/write plan contain every valid request exactly once "
+             "(permutation) — nothing is dropped or duplicated by grouping, fragmenting or bit-write merging; (5) fragmented writes: for every "
+             "value and overhead the fragments are non-empty, fit, concatenate to the value, the k-th offset is the number of bytes before it and "
+             "each fragment is the slice of the value at its offset; (6) fragmented reads: against ANY sequence of fragment lengths the offsets "
+             "requested are the bytes received so far and the reassembly is the concatenation. Induction over request lists / fragment lists + lia. "
+             "Tie: differential correspondence of the real _read_build_requests/_write_build_requests/_send_*_fragmented (socket layer replaced "
+             "from outside) with the extracted model, plus the size/tiling oracle evaluated on the frames the real code builds. The Forward Open "
+             "size negotiation (4000 -> 500 fallback) is covered under C10; end-to-end sweeps through the reference target are part of C01/C02."),
+    "note": COMMON_NOTE + " C04: closed under the global context. Planner inputs (data size, message length) are measured on the real packet "
+            "objects; the reply layout (2-byte type, 4 for structures) is the assumption stated in the evidence.",
+    "technique": "Coq proof (induction over request/fragment lists, linear arithmetic) + model/implementation correspondence of planners and fragment loops",
+    "design_ref": "DESIGN.md section 7, C04",
+})
+
 _PENDING = "vertical not yet built in this session (see DESIGN.md section 9 staging); decided by Coq proof + correspondence when it lands"
 _CLAIMED = {c["property_id"] for c in CHECKS}
 NOT_APPLICABLE = [{"property_id": f"C{i:02d}", "reason": _PENDING} for i in range(1, 20) if f"C{i:02d}" not in _CLAIMED]
